@@ -479,7 +479,7 @@ pub fn alternatives(fd: &FieldDef, base: &[u64], rich: bool) -> Vec<Vec<u64>> {
             }
         }
         Kind::Digest => {
-            for i in [0usize, 3] {
+            for i in [0usize, 3, 1, 2] {
                 let mut d = base.to_vec();
                 d[i] = (d[i] + 1) % P;
                 out.push(d);
@@ -494,11 +494,6 @@ pub fn alternatives(fd: &FieldDef, base: &[u64], rich: bool) -> Vec<Vec<u64>> {
                 out.push(d);
             }
             if rich {
-                for i in [1usize, 2] {
-                    let mut d = base.to_vec();
-                    d[i] = (d[i] + 1) % P;
-                    out.push(d);
-                }
                 out.push(vec![P - 1; 4]);
                 let mut d = base.to_vec();
                 d.swap(0, 3);
